@@ -86,6 +86,8 @@ pub struct Inner {
     pub calls: Vec<CallCtx>,
     pub injections: Vec<Injection>,
     saved: HashMap<PathBuf, Saved>,
+    /// Some(n): n more data writes succeed, then ENOSPC
+    pub disk_budget: Option<u64>,
     pub stats: WorldStats,
     pub user_config_dir: bool,
 }
@@ -128,6 +130,7 @@ impl World {
             calls: vec![CallCtx::default(); n_sessions],
             injections,
             saved: HashMap::new(),
+            disk_budget: None,
             stats: WorldStats::default(),
             user_config_dir: cfg.user_config_dir,
         };
@@ -300,6 +303,8 @@ impl Inner {
             EnvEvent::WriteUserPrefs { .. } => "write-user-prefs",
             EnvEvent::RemoveUserPrefs => "remove-user-prefs",
             EnvEvent::EditSysPref { .. } => "edit-sys-pref",
+            EnvEvent::DiskFull { .. } => "disk-full",
+            EnvEvent::DiskFree => "disk-free",
         };
         *self.stats.env_events.entry(name.to_string()).or_insert(0) += 1;
         let outcome = match ev {
@@ -377,6 +382,14 @@ impl Inner {
                     n += 1;
                 }
                 format!("repaired={}", n)
+            }
+            EnvEvent::DiskFull { after_writes } => {
+                self.disk_budget = Some(*after_writes);
+                "applied".to_string()
+            }
+            EnvEvent::DiskFree => {
+                self.disk_budget = None;
+                "applied".to_string()
             }
             EnvEvent::Touch { path } => {
                 self.advance_clock(1);
@@ -574,6 +587,14 @@ impl VerifEnv for SimEnv {
         truncated?;
         self.with(|w| {
             let now = w.now_ms;
+            if let Some(b) = w.disk_budget {
+                if b == 0 {
+                    *w.stats.faults_fired.entry("disk-full-write".to_string()).or_insert(0) += 1;
+                    w.seam(self.session, SeamRec { kind: SeamKind::Write, path: path.to_path_buf(), ok: false, fault: None, content_id: 0, injected: None });
+                    return Err(io::Error::new(io::ErrorKind::Other, "No space left on device (os error 28)"));
+                }
+                w.disk_budget = Some(b - 1);
+            }
             let r = w.fs.write(path, Arc::from(bytes.to_vec().into_boxed_slice()), now, None);
             w.seam(self.session, SeamRec { kind: SeamKind::Write, path: path.to_path_buf(), ok: r.is_ok(), fault: None, content_id: crate::rng::fnv_bytes(bytes), injected: None });
             r
